@@ -277,8 +277,8 @@ def index_case(ctx, a, b, b_operand, opname, opcoq, kcoq, kname, kind, exhaustiv
 def index_exhaustive(ctx):
     '''All pairs of repetition-free label sequences over a small universe, every operation.'''
     import static_frame as sf
-    n = 3 if ctx.tier == 'quick' else 4
     for kind in (('int', 'obj') if ctx.tier == 'quick' else ('int', 'str', 'obj')):
+        n = 4 if ctx.tier != 'quick' and kind != 'str' else 3
         uni = UNIVERSES[kind][:n]
         seqs = list(nodup_seqs(uni))
         idx = {s: make_index(s, kind) for s in seqs}
@@ -295,7 +295,7 @@ def index_random(ctx):
     pairings int64/int32/str/object/tuples/dates; empty operands."""
     import static_frame as sf
     rng = ctx.rng
-    for _ in range(ctx.n(500, 12000)):
+    for _ in range(ctx.n(500, 8000)):
         kind = rng.choice(('int', 'str', 'obj', 'tup', 'int_vs_str', 'int32', 'date'))
         ka = kb = kind
         if kind == 'int_vs_str':
@@ -349,7 +349,7 @@ def index_hierarchy_cases(ctx):
     path (int,int) and the object path (str,int); also a malformed stream (depth mismatch -> ErrorInitIndex)."""
     import static_frame as sf
     rng = ctx.rng
-    for _ in range(ctx.n(300, 6000)):
+    for _ in range(ctx.n(300, 4000)):
         kind = rng.choice(('ih_si', 'ih_ii'))
         la = rand_labels(rng, kind, rng.randint(1, 6))
         mode = rng.choice(('any', 'any', 'equal', 'perm', 'disjoint'))
@@ -679,7 +679,7 @@ def rand_labels(rng, kind, n):
 def series_random(ctx):
     rng = ctx.rng
     kinds = ('int', 'str', 'obj', 'tup', 'ih_si', 'ih_ii')
-    for _ in range(ctx.n(500, 12000)):
+    for _ in range(ctx.n(500, 8000)):
         kind = rng.choice(kinds)
         la = rand_labels(rng, kind, rng.randint(0, 6))
         mode = rng.choice(('perm', 'overlap', 'overlap', 'disjoint', 'equal', 'any'))
@@ -943,7 +943,7 @@ def frame_op_for(rng, dta, dtb, rows=True):
 
 def frame_random(ctx):
     rng = ctx.rng
-    for _ in range(ctx.n(300, 9000)):
+    for _ in range(ctx.n(300, 6000)):
         ikind = rng.choice(('int', 'str', 'obj', 'ih_si'))
         ckind = rng.choice(('str', 'str', 'int'))
         ia, ib = label_pair(rng, ikind, rng.choice(('equal', 'perm', 'overlap', 'overlap', 'disjoint')), 4)
@@ -1051,7 +1051,7 @@ def frame_scalar_array(ctx):
 def frame_reindex_cases(ctx):
     """Frame.reindex (the alignment mechanism of the operators) called directly, every layout of <= 3 columns."""
     rng = ctx.rng
-    for _ in range(ctx.n(300, 6000)):
+    for _ in range(ctx.n(300, 4000)):
         ikind = rng.choice(('int', 'str'))
         ia = rand_labels(rng, ikind, rng.randint(0, 4))
         ca = rand_labels(rng, 'str', rng.randint(1, 3))
